@@ -25,6 +25,7 @@ import (
 	"pgregory.net/rapid"
 
 	"verifharness/hx"
+	"verifharness/wire"
 )
 
 func selfSigned() tls.Certificate {
@@ -60,7 +61,7 @@ func TestC08Listeners(t *testing.T) {
 		cur.Lock()
 		s, tg := cur.s, cur.tg
 		cur.Unlock()
-		p := &proxy.HTTPProxy{Config: s.cfg, Transport: &http.Transport{DisableCompression: true, DisableKeepAlives: true}, Lookup: func(*http.Request) *route.Target { return tg }}
+		p := &proxy.HTTPProxy{Stats: wire.Stats(), Config: s.cfg, Transport: &http.Transport{DisableCompression: true, DisableKeepAlives: true}, Lookup: func(*http.Request) *route.Target { return tg }}
 		p.ServeHTTP(w, r)
 	})
 	cert := selfSigned()
